@@ -5,6 +5,7 @@
 package main
 
 import (
+	"context"
 	crand "crypto/rand"
 	"fmt"
 	"math/rand/v2"
@@ -185,7 +186,7 @@ func deadlock(withTimer bool) {
 		case <-done:
 			fmt.Println("deadlock done")
 		case <-time.After(500 * time.Millisecond):
-			fmt.Println("deadlock watchdog")
+			fmt.Println("timeout") // what ruby-ti's main prints on this branch
 			os.Exit(1)
 		}
 		return
@@ -199,6 +200,45 @@ func env() {
 	var b [4]byte
 	crand.Read(b[:])
 	fmt.Println("env", os.Getpid(), os.Getppid(), b, crand.Text()[:6], rand.IntN(1000), time.Now().Unix()%100000)
+}
+
+// timers: a watchdog built from context.WithTimeout, a stoppable time.NewTimer and a ticker
+// that is not a watchdog at all (its ticks must not end the computation).
+func timers(kind string) {
+	done := make(chan int, 1)
+	go func() { done <- work(200000) }()
+	switch kind {
+	case "context":
+		ctx, cancel := context.WithTimeout(context.Background(), 500*time.Millisecond)
+		defer cancel()
+		select {
+		case v := <-done:
+			fmt.Println("timers context done", v, ctx.Err())
+		case <-ctx.Done():
+			fmt.Println("timers context deadline", ctx.Err())
+		}
+	case "newtimer":
+		var t *time.Timer = time.NewTimer(500 * time.Millisecond)
+		select {
+		case v := <-done:
+			fmt.Println("timers newtimer done", v, t.Stop())
+		case <-t.C:
+			fmt.Println("timers newtimer fired")
+		}
+	default:
+		tk := time.NewTicker(200 * time.Microsecond)
+		n := 0
+		for {
+			select {
+			case v := <-done:
+				tk.Stop()
+				fmt.Println("timers ticker done", v, n > 0)
+				return
+			case <-tk.C:
+				n++
+			}
+		}
+	}
 }
 
 func main() {
@@ -221,6 +261,8 @@ func main() {
 		once(5)
 	case "env":
 		env()
+	case "timers-context", "timers-newtimer", "timers-ticker":
+		timers(mode[7:])
 	case "deadlock-timer":
 		deadlock(true)
 	case "deadlock-plain":
